@@ -34,7 +34,14 @@ func side(ch any) *vchan {
 	return vc
 }
 
+// unwinding reports whether the current execution is being torn down: deferred
+// calls of the code under test still run then, and must never block.
+func unwinding() bool { return R != nil && R.aborting }
+
 func Send[T any](ch chan<- T, v T) {
+	if unwinding() {
+		return
+	}
 	if !Active() {
 		ch <- v
 		return
@@ -77,6 +84,10 @@ func take[T any](ch <-chan T, vc *vchan) (T, bool) {
 }
 
 func Recv2[T any](ch <-chan T) (T, bool) {
+	if unwinding() {
+		var zero T
+		return zero, false
+	}
 	if !Active() {
 		v, ok := <-ch
 		return v, ok
@@ -92,6 +103,9 @@ func Recv[T any](ch <-chan T) T {
 }
 
 func Close[T any](ch chan T) {
+	if unwinding() {
+		return
+	}
 	if Active() {
 		side(ch).closed = true
 		Effect()
@@ -115,6 +129,9 @@ func Case[T any](ch <-chan T) Sel {
 // Select models a select whose cases are receives that discard the value.
 // Returns the index of the case taken, or -1 for default.
 func Select(hasDefault bool, cases ...Sel) int {
+	if unwinding() {
+		return -1
+	}
 	if !Active() {
 		panic("vrt.Select outside an execution")
 	}
